@@ -148,6 +148,7 @@ void prop(const Case& cs) {
       // VarOpt in warm-up mode (n <= k, preamble longs 3): a larger k leaves the image self-consistent, and a sketch of that k with
       // resize factor X1 allocates k+1 slots up front exactly as its constructor does
       if ((f == fam::F_VO_I || f == fam::F_VO_S) && p >= 4 && p <= 7 && (img[0] & 0x3f) == 3 && vf::ref_le32(m.data() + 4) > 65536) { ++excluded_large_config; continue; }
+      if (f == fam::F_CPC && p == 3 && m[3] >= 20 && m[3] <= 26) { ++excluded_large_config; continue; }  // another valid lg_k: observing such a sketch (validate) builds a 2^lg_k-row matrix
       if (f == fam::F_BLOOM && img.size() <= 24 && p >= 16 && m.size() >= 20 && vf::ref_le32(m.data() + 16) > (1u << 20)) { ++excluded_large_config; continue; }  // empty image, huge bit-array length: valid huge empty filter
       if (f == fam::F_DENS && empty_image && m.size() >= 12 && vf::ref_le32(m.data() + 8) > 4096) { ++excluded_large_config; continue; }
       faults.push_back(Fault{path, 1, p, v});
